@@ -6,6 +6,7 @@ import (
 	"context"
 	"errors"
 	"fmt"
+	"github.com/petermattis/goid"
 	"io"
 	"io/fs"
 	"runtime"
@@ -75,6 +76,11 @@ type faultResolver struct {
 	c     *C07Case
 	calls map[string]int
 	fired []firedFault
+	// atReturn: the goroutines that existed when Compile returned (nil before).
+	// A goroutine that is not among them and still asks for a file is work that
+	// was started after Compile had returned.
+	atReturn map[int64]bool
+	lateWork string
 }
 
 func inDescriptorProbe() bool {
@@ -113,6 +119,9 @@ func (r *faultResolver) access(full string) (io.ReadCloser, error) {
 }
 
 func (r *faultResolver) FindFileByPath(path string) (protocompile.SearchResult, error) {
+	if r.atReturn != nil && !r.atReturn[goid.Get()] && r.lateWork == "" {
+		r.lateWork = fmt.Sprintf("%s (goroutine %s)", path, sim.CurrentName())
+	}
 	ord := r.calls[path]
 	r.calls[path]++
 	probe := inDescriptorProbe()
@@ -296,6 +305,7 @@ func execC07(t *testing.T, c C07Case) *Verdict {
 		}
 		res = doCompile(ctx, comp, c.Run.Request)
 		firedAtReturn = len(fr.fired)
+		fr.atReturn = sim.KnownGoroutines()
 	}}
 	var events []sim.Event
 	if c.CancelAt >= 0 {
@@ -327,6 +337,9 @@ func execC07(t *testing.T, c C07Case) *Verdict {
 	}
 	if !res.returned {
 		return viol("C07/deadlock", "Compile did not return").with(out)
+	}
+	if fr.lateWork != "" {
+		return viol("C07/work-started-after-return", "after Compile had returned, a goroutine that did not exist at that moment asked the resolver for %s: compilation work is still being started", fr.lateWork).with(out)
 	}
 	if res.panicked != nil {
 		return viol("C07/panic-escaped-to-caller", "Compile panicked on the calling goroutine instead of returning an error: %v", res.panicked).with(out)
